@@ -540,7 +540,7 @@ def run_engine(case):
     if not out['ok']:
       break
     op = _d(op)
-    o = _int(op.get('o')) % 12
+    o = _int(op.get('o')) % 13
     t = tables[_int(op.get('t')) % len(tables)]
     before = positions(t)
     cur = sorted(before.values())
@@ -634,6 +634,18 @@ def run_engine(case):
         if ua[0] == 'AddEmptyTable':
           tables.append(r.ret[0]['table_id'])
         check_all_distinct(d, out, ua[0])
+    elif o == 12:
+      # rename the table (its position column is copied into a new Column object), then go on inserting
+      new = 'Ren%d' % counter[0]
+      out.cls('engine:RenameTable')
+      r = d.apply([['RenameTable', t, new]])
+      if not r.ok:
+        engine_fail_exc(out, d, r, 'RenameTable', t)
+      else:
+        last_undo[0] = None
+        tables[:] = [x for x in (r.ret[0] if x == t else x for x in tables)]
+        tables[:] = [x for x in tables if x in d.engine.tables] or [x for x in d.engine.tables if not x.startswith('_grist_')][:1]
+        check_all_distinct(d, out, 'RenameTable')
     elif o == 10:
       # explicit write into a metadata position column (the client reorders fields/pages this way)
       mt, mc = META_POS[_int(op.get('i')) % len(META_POS)]
@@ -736,6 +748,9 @@ def enumerate_cases(tier):
   # the ordinary-use route to subnormal positions: 1074 insert-at-top, then insert above the second row
   yield {'kind': 1, 'halve': 1075, 'ops': [{'o': 0, 'keys': [{'k': 0, 'i': 1}]}]}
   yield {'kind': 1, 'halve': 1030, 'ops': [{'o': 1, 'rep': 60, 'keys': [{'k': 0, 'i': 1}]}]}
+  # rows, a table rename (new Column object for manualSort), then repeated inserts above the same row
+  yield {'kind': 1, 'ops': [{'o': 2, 'keys': [{'k': 3}, {'k': 3}, {'k': 3}]}, {'o': 12},
+                            {'o': 1, 'rep': 69, 'keys': [{'k': 0, 'i': 1}]}]}
 
 
 def _keyspec(lit):
@@ -785,7 +800,7 @@ def strategy(tier):
                       min_size=1, max_size=3)})
 
   op = st.fixed_dictionaries({
-    'o': st.sampled_from([0, 0, 1, 1, 1, 2, 2, 3, 4, 5, 5, 6, 7, 8, 9, 10, 10, 11]),
+    'o': st.sampled_from([0, 0, 1, 1, 1, 2, 2, 3, 4, 5, 5, 6, 7, 8, 9, 10, 10, 11, 12, 12]),
     't': st.integers(0, 2), 'i': st.integers(0, 40), 'rep': st.integers(0, 69),
     'keys': st.lists(_keyspec(lit_req), min_size=1, max_size=8)})
   eng = st.fixed_dictionaries({'kind': st.just(1), 'ops': st.lists(op, min_size=1, max_size=30)})
